@@ -160,6 +160,7 @@ def special_points(logtext):
     return pts, len(lines)
 
 AY_READS = [0]
+AY_WRITES = [0]
 
 def install_ay_monitor():
     """Counting wrapper on the real trace.Tracer.read_port: how often a read of an AY-decoded port (A15=A14=1, A1=0) was made: the answer depends on the AY register-select value and registers."""
@@ -172,6 +173,14 @@ def install_ay_monitor():
             AY_READS[0] += 1
         return orig(self, registers, port)
     trace.Tracer.read_port = read_port
+    # writes that change the AY state (register select 0xFFFD-decoded, data 0xBFFD-decoded), through the tracer's own entry point
+    from skoolkit import pagingtracer
+    orig_w = pagingtracer.PagingTracer.write_port
+    def write_port(self, registers, port, value, offset=0):
+        if port & 0x8002 == 0x8000:
+            AY_WRITES[0] += 1
+        return orig_w(self, registers, port, value, offset)
+    pagingtracer.PagingTracer.write_port = write_port
     trace.Tracer._vk_wrapped = True
 
 def run(shard, spec):
@@ -180,6 +189,8 @@ def run(shard, spec):
     cases = list(range(spec['shard'], nprog, spec['of']))
     if spec['shard'] == 0:
         cases.insert(0, 'witness')         # the listed finding's witness is replayed first, deterministically
+    if spec['shard'] == 5 % spec['of']:
+        cases.insert(0, 'ay48')            # witness of the 48K AY finding: AY register written before the dump, read after it
     DIRECTED = {'stack-4000-c': 0x4000, 'stack-4001-c': 0x4001, 'stack-0001-c': 0x0001, 'stack-4000-py': 0x4000}
     if spec['shard'] in (1, 2, 3, 4) and spec['shard'] < spec['of']:
         cases.insert(0, sorted(DIRECTED)[spec['shard'] - 1])     # the stack-on-the-ROM-boundary programs, in every run
@@ -196,6 +207,10 @@ def run(shard, spec):
         if case in DIRECTED:
             py = case.endswith('-py')
             N = 40
+        if case == 'ay48':
+            # LD BC,FFFD; LD A,1; OUT (C),A; LD B,BF; LD A,55; OUT (C),A; LD B,FF; 3 x NOP; IN A,(C); LD (9000),A; JR $
+            is128, org, ext, cmio, py, N, boundary = False, 0x8000, 'szx', False, False, 14, False
+            code = [0x01, 0xFD, 0xFF, 0x3E, 0x01, 0xED, 0x79, 0x06, 0xBF, 0x3E, 0x55, 0xED, 0x79, 0x06, 0xFF, 0x00, 0x00, 0x00, 0xED, 0x78, 0x32, 0x00, 0x90, 0x18, 0xFE]
         if case == 'witness':
             is128, org, code, ext, cmio, py, N = False, 0x7FFE, [0xFB, 0x76, 0x18, 0xFC], 'szx', True, False, 40
         if shard.tier == 'thorough':
@@ -227,12 +242,16 @@ def run(shard, spec):
         bad = 0
         for n1 in range(1, N):
             mid, fin = 'mid.' + ext, 'fin.' + ext
+            ayw0 = AY_WRITES[0]
             ra = harness.run_tool('trace', opts + ['-s', str(org), '-m', str(n1), fn0, mid])
+            ay_writes_leg1 = AY_WRITES[0] - ayw0
             if not ra.ok:
                 shard.violation('first leg (-m %d) failed: %s' % (n1, ra.describe()), dict(rp, n1=n1))
                 bad += 1
                 break
+            ayr0 = AY_READS[0]
             rb = harness.run_tool('trace', opts + ['-m', str(N - n1), mid, fin])
+            ay_reads_leg2 = AY_READS[0] - ayr0
             if not rb.ok:
                 shard.violation('second leg (-m %d from the dump) failed: %s\n%s' % (N - n1, rb.describe(), (rb.tb or '')[-600:]), dict(rp, n1=n1))
                 bad += 1
@@ -247,7 +266,7 @@ def run(shard, spec):
                 d = []
             if d:
                 shard.violation('%s %s %s: run of %d differs from %d + dump + %d: %s' % ('128K' if is128 else '48K', ext, ' '.join(opts) or '(C, plain)', N, n1, N - n1, d[:5]),
-                                dict(rp, n1=n1), classify(d, cmio, is128, whole_log, n1, ay_reads_48k))
+                                dict(rp, n1=n1), classify(d, cmio, is128, whole_log, n1, ay_reads_48k and ay_writes_leg1 and ay_reads_leg2))
                 bad += 1
                 if bad > 3:
                     break
@@ -296,8 +315,9 @@ def memptr_flags_only(d, log):
 def classify(d, cmio, is128, log, n1, ay_reads_48k=0):
     if ay_reads_48k:
         # C10-48k-ay-registers-not-saved: on a 48K machine trace.py answers reads of port 0xFFFD from simulated AY
-        # registers (monitor on Tracer.read_port saw such reads in the uninterrupted run), but 48K snapshots carry no AY
-        # state, so a resumed run reads different values
+        # registers, but 48K snapshots carry no AY state, so a resumed run reads different values. Decided on the
+        # witness: the leg before the dump wrote to the AY ports (monitor on PagingTracer.write_port) and the leg after
+        # it read the AY port (monitor on Tracer.read_port)
         return 'C10-48k-ay-registers-not-saved'
     return _classify_halt(d, cmio, is128, log, n1)
 
